@@ -136,7 +136,11 @@ func runDecaySuite(seed uint64, n int, out *Out, stats *Stats) {
 			viol("churn-gain", fmt.Sprintf("valuing at %d then at %d gives %d, more than %d + slack %d", x, x2, churn, v2, sl))
 		}
 		// depends on elapsed time only
+		// realistic creation instants (Unix nanoseconds of the 2020s) as well as small ones
 		d := int64(r.U64n(1 << 40))
+		if r.Chance(2, 3) {
+			d = 1_700_000_000_000_000_000 + int64(r.U64n(1<<56))
+		}
 		u := ledger.NewUtxo(ledger.NewInputInfo(0, "x"), ledger.NewOutput("a", yielding, y), d)
 		if w := u.Value(d+x, float64(s.h), s.B, s.L); w != v {
 			viol("elapsed-only", fmt.Sprintf("shifted by %d the value is %d", d, w))
